@@ -7,11 +7,12 @@
    measures never influence a viral value, so they are not carried (clause conditions of the modelled subset range over
    identifiers and the viral attribute).
 
-   SPEC vs IMPL.  `vp_group` is the specification: a function of the MULTISET of the combined values (aggregate rules:
-   order-free aggregates ignoring nulls; enumerated rules: the pair function folded over the values in canonical
-   ascending order, nulls last — what `list(col ORDER BY col)` yields).  `vp_group_impl` is the engine as it is:
-   `list_reduce(list(col), …)`, a left fold in PHYSICAL order.  `veval false` evaluates with the specification,
-   `veval true` with the engine's fold.  Definitions only. *)
+   SPEC, IMPL, BEFORE FIX.  `vp_group` is the specification: a function of the MULTISET of the combined values
+   (aggregate rules: order-free aggregates ignoring nulls; enumerated rules: the pair function folded over the values in
+   canonical ascending order, nulls last).  `vp_group_impl` is the engine as it is: `list_reduce(list(col ORDER BY col), …)`
+   — the same sorted fold.  `vp_group_before_fix` is the engine as it was (repo commit 52984f5 repaired it):
+   `list_reduce(list(col), …)`, a left fold in PHYSICAL order; it is kept only as a regression witness.
+   `veval false` evaluates with the engine's fold, `veval true` with the fold before the fix.  Definitions only. *)
 From Coq Require Import ZArith QArith Qreduction String List Bool.
 Import ListNotations.
 From VTL Require Import Base.Val Model.Table Model.Scalar Model.Expr Model.SetOps.
@@ -150,8 +151,15 @@ Definition vp_group (r : vrule) (values : list val) : val :=
   | REnum cls d => fold1 (enum_pair cls d) (vsort (map vcanon values))
   end.
 
-(* the engine: list_reduce(list(col), (acc, x) -> CASE … END) — left fold in physical order *)
+(* the engine: list_reduce(list(col ORDER BY col), (acc, x) -> CASE … END) — DuckDB sorts ascending with nulls last *)
 Definition vp_group_impl (r : vrule) (values : list val) : val :=
+  match r with
+  | RAgg f => agg_group f values
+  | REnum cls d => fold1 (enum_pair cls d) (vsort (map vcanon values))
+  end.
+
+(* the engine BEFORE the fix: list_reduce(list(col), …) — left fold in physical order (regression witness only) *)
+Definition vp_group_before_fix (r : vrule) (values : list val) : val :=
   match r with
   | RAgg f => agg_group f values
   | REnum cls d => fold1 (enum_pair cls d) values
@@ -246,25 +254,25 @@ Fixpoint nubk (l : list (list val)) : list (list val) :=
   end.
 Definition gproj (d : dset) (by_ : list string) (r : vrow) : list val :=
   select_by (d_ids d) (fun n => mem_s n by_) (fst r).
-Definition grp (impl : bool) (rule : option vrule) (values : list val) : val :=
+Definition grp (old : bool) (rule : option vrule) (values : list val) : val :=
   match rule with
-  | Some r => if impl then vp_group_impl r values else vp_group r values
+  | Some r => if old then vp_group_before_fix r values else vp_group_impl r values
   | None => vp_no_rule_group values
   end.
-Definition v_group (impl : bool) (rules : list (string * vrule)) (d : dset) (by_ : list string) : dset :=
+Definition v_group (old : bool) (rules : list (string * vrule)) (d : dset) (by_ : list string) : dset :=
   let rule := rule_of rules d in
   mkD (filter (fun n => mem_s n by_) (d_ids d)) (d_ms d)
       (map (fun k => (k, if has_v d
-                         then [grp impl rule (vvals (filter (fun r => key_eqb k (gproj d by_ r)) (d_rows d)))]
+                         then [grp old rule (vvals (filter (fun r => key_eqb k (gproj d by_ r)) (d_rows d)))]
                          else []))
            (nubk (map (gproj d by_) (d_rows d)))).
 
 (* analytic invocation: every datapoint receives the combination over its partition *)
-Definition v_analytic (impl : bool) (rules : list (string * vrule)) (d : dset) (part : list string) : dset :=
+Definition v_analytic (old : bool) (rules : list (string * vrule)) (d : dset) (part : list string) : dset :=
   let rule := rule_of rules d in
   mkD (d_ids d) (d_ms d)
       (map (fun x => (fst x, if has_v d
-                             then [grp impl rule (vvals (filter (fun r => key_eqb (gproj d part x) (gproj d part r)) (d_rows d)))]
+                             then [grp old rule (vvals (filter (fun r => key_eqb (gproj d part x) (gproj d part r)) (d_rows d)))]
                              else []))
            (d_rows d)).
 
@@ -315,21 +323,21 @@ Definition class_of (x : vexpr) : opclass :=
   | XSetViral _ _ _ | XDropViral _ => OcSet
   end.
 
-Fixpoint veval (impl : bool) (rules : list (string * vrule)) (e : denv) (x : vexpr) : res dset :=
+Fixpoint veval (old : bool) (rules : list (string * vrule)) (e : denv) (x : vexpr) : res dset :=
   match x with
   | XVar n => match dlook n e with Some d => Ok d | None => Err "1-2-2" end
-  | XBin a b => bind (veval impl rules e a) (fun da => bind (veval impl rules e b) (fun db => v_combine JInner rules da db))
-  | XJoin k a b => bind (veval impl rules e a) (fun da => bind (veval impl rules e b) (fun db => v_combine k rules da db))
-  | XUn a => bind (veval impl rules e a) (fun d => Ok (v_unary rules d))
-  | XCheckAll rid a => bind (veval impl rules e a) (fun d => Ok (v_check_all rules rid d))
-  | XAggr a by_ => bind (veval impl rules e a) (fun d => Ok (v_group impl rules d by_))
-  | XAnalytic a part => bind (veval impl rules e a) (fun d => Ok (v_analytic impl rules d part))
-  | XFilter a c => bind (veval impl rules e a) (fun d => d_filter d c)
-  | XSame a => veval impl rules e a
-  | XSub a fixed => bind (veval impl rules e a) (fun d => Ok (d_sub d fixed))
-  | XSetViral a n v => bind (veval impl rules e a) (fun d => Ok (v_setviral d n v))
-  | XDropViral a => bind (veval impl rules e a) (fun d => Ok (v_dropviral d))
-  | XSet o a b => bind (veval impl rules e a) (fun da => bind (veval impl rules e b) (fun db => Ok (v_setop o da db)))
+  | XBin a b => bind (veval old rules e a) (fun da => bind (veval old rules e b) (fun db => v_combine JInner rules da db))
+  | XJoin k a b => bind (veval old rules e a) (fun da => bind (veval old rules e b) (fun db => v_combine k rules da db))
+  | XUn a => bind (veval old rules e a) (fun d => Ok (v_unary rules d))
+  | XCheckAll rid a => bind (veval old rules e a) (fun d => Ok (v_check_all rules rid d))
+  | XAggr a by_ => bind (veval old rules e a) (fun d => Ok (v_group old rules d by_))
+  | XAnalytic a part => bind (veval old rules e a) (fun d => Ok (v_analytic old rules d part))
+  | XFilter a c => bind (veval old rules e a) (fun d => d_filter d c)
+  | XSame a => veval old rules e a
+  | XSub a fixed => bind (veval old rules e a) (fun d => Ok (d_sub d fixed))
+  | XSetViral a n v => bind (veval old rules e a) (fun d => Ok (v_setviral d n v))
+  | XDropViral a => bind (veval old rules e a) (fun d => Ok (v_dropviral d))
+  | XSet o a b => bind (veval old rules e a) (fun da => bind (veval old rules e b) (fun db => Ok (v_setop o da db)))
   end.
 
 (* ---------------- the static pass: result structures, rule definitions, "every viral attribute has a rule" *)
@@ -378,7 +386,7 @@ Definition val_same (a b : val) : bool :=
   | _, _ => val_eqb a b
   end.
 (* decidable check on the pair table of an enumerated rule: closed and associative over the values `dom`
-   (the pair function is always commutative) — then the engine's left fold does not depend on the order *)
+   (the pair function is always commutative) — then even a left fold in physical order does not depend on the order *)
 Definition closed_on (dom : list val) (f : val -> val -> val) : bool :=
   forallb (fun a => forallb (fun b => existsb (val_same (f a b)) dom) dom) dom.
 Definition assoc_on (dom : list val) (f : val -> val -> val) : bool :=
@@ -407,15 +415,15 @@ Fixpoint vdefs (numeric : string -> bool) (defs : list (string * vrule)) (acc : 
   end.
 
 (* ---------------- scripts *)
-Fixpoint vstmts (impl : bool) (rules : list (string * vrule)) (e : denv) (ss : list (string * vexpr)) : res denv :=
+Fixpoint vstmts (old : bool) (rules : list (string * vrule)) (e : denv) (ss : list (string * vexpr)) : res denv :=
   match ss with
   | [] => Ok e
-  | (n, x) :: t => bind (veval impl rules e x) (fun d => vstmts impl rules ((n, d) :: e) t)
+  | (n, x) :: t => bind (veval old rules e x) (fun d => vstmts old rules ((n, d) :: e) t)
   end.
 
-Definition vrun (impl : bool) (numeric : string -> bool) (defs : list (string * vrule)) (e : denv)
+Definition vrun (old : bool) (numeric : string -> bool) (defs : list (string * vrule)) (e : denv)
            (ss : list (string * vexpr)) (result : string) : res dset :=
   bind (vdefs numeric defs []) (fun rules =>
   bind (vcheck rules (senv_of e) ss) (fun _ =>
-  bind (vstmts impl rules e ss) (fun e' =>
+  bind (vstmts old rules e ss) (fun e' =>
   match dlook result e' with Some d => Ok d | None => Err "1-2-2" end))).
